@@ -311,6 +311,18 @@ var knownTiny = []struct {
 	{2596248392197, 56505, 1205606907},
 }
 
+// the same for the other end of the range: draws whose 32 most significant bits are all set (one in 4.3 * 10^9)
+var knownHuge = []struct {
+	hseed int64
+	n     int
+	v     int64
+}{
+	{371535502665, 28305, 9223372035605032959},
+	{2507010391833, 30816, 9223372035546879022},
+	{644249871631, 58346, 9223372034992492585},
+	{1760794382248, 125363, 9223372034969712085},
+}
+
 func bigCases(t *testing.T) {
 	n := 0
 	run := func(c caseT) {
@@ -342,7 +354,7 @@ func bigCases(t *testing.T) {
 		// draws below e^-22 (the last entry of the level table): one new node in 3.6 * 10^9 gets one, so they were looked
 		// for once, offline, in the same documented stream (clock seed, position of the draw, its value); each entry is
 		// validated against the generator before use and skipped if the stream ever changes
-		for _, k := range knownTiny[:common.Pick(3, len(knownTiny))] {
+		for _, k := range append(append(knownTiny[:0:0], knownTiny[:common.Pick(3, len(knownTiny))]...), knownHuge[:common.Pick(2, len(knownHuge))]...) {
 			src := rand.NewSource(epoch.Add(time.Duration(k.hseed)).UnixNano())
 			var v int64
 			for i := 1; i <= k.n; i++ {
